@@ -7,8 +7,8 @@ from ..rulekit import *
 from ..norm import Normalizer, Poly, NormError
 # expression-expansion helpers (reaching definitions + path conditions, literal
 # normal forms, branch pseudo-node queries) are shared with the C05 rules
-from .c05 import (Expander, cond_dnf, holds_at, alts_bool, entails, _neg, _show, pseudo_asserting, pseudo_nodes, canon, canon_chain,
-                  enclosing_loops, exc_class, _exc_succ, _handler_types, _catches_exceptions)
+from .c05 import (Expander, cond_dnf, holds_at, alts_bool, node_conditions, _neg, _show, pseudo_asserting, pseudo_nodes, canon_chain,
+                  enclosing_loops, _handler_types, _catches_exceptions)
 
 R = Rules(
     "C07",
@@ -217,7 +217,7 @@ def a(ctx):
 def b(ctx):
     r = _roles(ctx)
     fi, cfg = r.fi, r.cfg
-    roles, D = _freshness(ctx, r)
+    roles, _D = _freshness(ctx, r)
     ctx.need(roles is not None, "C07.b needs the freshness roles established by C07.a (delivery condition is not the RFC 7641 formula)")
     base_roles = tuple(x.split("@")[0] for x in roles)
     n = 0
@@ -335,7 +335,7 @@ def d(ctx):
             last = [bb["a"][1]]
         ctx.need(len(last) == 1, "process_response: add_response without an is_last argument")
         ctx.ob("the response handed on is the one received", bool(bb["a"]) and chain(bb["a"][0]) == resp, fi, call, construct="%s  [message]" % stmt_text(call))
-        tv = alts_bool(X, N, last[0], cfg.loc1(call), node_conditions_of(fi, call))
+        tv = alts_bool(X, N, last[0], cfg.loc1(call), node_conditions(fi, call))
         T = _absorb({frozenset(l - base) for l, t in tv if t})
         F = _absorb({frozenset(l - base) for l, t in tv if not t})
         ctx.ob("is_last is reported exactly when the request had no Observe:0 or the response carries no Observe option", T == want_final and F == want_keep, fi, call,
@@ -350,11 +350,6 @@ def d(ctx):
                detail="removal condition: %s" % _dshow(Dp))
     ctx.ob("the token is forgotten whenever the request had no Observe:0 or the response carries no Observe option", _absorb(union) == want_final, fi, pops[0],
            detail="removal condition: %s" % _dshow(_absorb(union)), construct="removal from outgoing_requests  [complete]")
-
-
-def node_conditions_of(fi, node):
-    from .c05 import node_conditions
-    return node_conditions(fi, node)
 
 
 def _iterated_field(fi):
@@ -429,9 +424,8 @@ def f(ctx):
     fi = prog.func("protocol.BlockwiseRequest._run_observation")
     p = params(fi)
     ctx.need(len(p) == 5, "_run_observation signature changed")
-    orig, lower, fut = p[0], p[1], p[2]
+    orig, lower = p[0], p[1]
     cfg = cfg_of(fi)
-    X = Expander(fi)
     loops = [n for n in walk_no_nested(fi.node) if isinstance(n, ast.AsyncFor) and chain(n.iter) == lower]
     ctx.floor("async for over the lower observation", len(loops), 1)
     ctx.need(len(loops) == 1 and isinstance(loops[0].target, ast.Name), "_run_observation: unexpected iteration over the lower observation")
